@@ -7,6 +7,7 @@ mod probe;
 mod io_script;
 mod c10;
 mod c11;
+mod c19;
 mod canon;
 
 use common::Args;
@@ -51,6 +52,7 @@ fn main() {
         "probe-det" => probe::det(),
         "C10" => c10::run(&args),
         "C11" => c11::run(&args),
+        "C19" => c19::run(&args),
         "C13" | "C14" | "C15" | "C16" => merge::run(&args),
         p => { eprintln!("unknown property {}", p); std::process::exit(2); }
     }
